@@ -8,15 +8,20 @@ package main
 
 import (
 	"context"
+	"encoding/json"
 	"fmt"
+	"net/http/httptest"
+	"strings"
 	"time"
 
 	"github.com/pingcap/kvproto/pkg/metapb"
 	"github.com/tikv/pd/pkg/cache"
+	"github.com/tikv/pd/server/api"
 	"github.com/tikv/pd/server/core"
 	"github.com/tikv/pd/server/schedule"
 	"github.com/tikv/pd/server/schedule/checker"
 	"github.com/tikv/pd/server/schedule/operator"
+	"github.com/tikv/pd/server/schedule/placement"
 	"go.etcd.io/etcd/clientv3"
 
 	"pdverif/internal/life10"
@@ -91,6 +96,7 @@ func runLifecycles(R *res.Result, seed uint64, rounds int) {
 			}
 		}
 	}
+	runRuleAPI(R, w, master, 3)
 }
 
 // ---- temporary (TTL) settings across a REAL leader change ----
@@ -207,4 +213,116 @@ func runTTLHistory(seed uint64) (out ttlOutcome) {
 			Desc: hist + "; CheckerController.CheckRegion proposes nothing for region {1,2} with max-replicas 3 although stores 3 and 4 are up, empty and have just reported", Replay: replay})
 	}
 	return
+}
+
+// ---- round 8: placement rules through the REAL HTTP API (api.NewHandler router, httptest) ----
+// Accepted and REFUSED POST /config/rule requests for an existing rule.  ORACLE: the acknowledged rule set = the bodies of the
+// requests answered 200.  After every request the rule the manager SERVES and the rule in storage (a fresh manager over the
+// same storage) must equal the acknowledged one, and the real RuleChecker on the RaftCluster must add peers only on stores the
+// acknowledged rule allows.
+type ruleAPIRec struct {
+	Accepted []string
+	Refused  string
+	Status   int
+}
+
+func consString(r *placement.Rule) string {
+	if r == nil {
+		return "<no rule>"
+	}
+	var xs []string
+	for _, c := range r.LabelConstraints {
+		xs = append(xs, fmt.Sprintf("%s %s %v", c.Key, c.Op, c.Values))
+	}
+	return fmt.Sprintf("role %s count %d constraints %v location-labels %v", r.Role, r.Count, xs, r.LocationLabels)
+}
+
+func runRuleAPI(R *res.Result, w *life10.World, master *rng.R, rounds int) {
+	const n = 5
+	h, _, err := api.NewHandler(context.Background(), w.S)
+	if err != nil {
+		R.Notes = append(R.Notes, "rule API histories skipped: "+err.Error())
+		return
+	}
+	post := func(method, path, body string) int {
+		rw := httptest.NewRecorder()
+		h.ServeHTTP(rw, httptest.NewRequest(method, "/pd/api/v1"+path, strings.NewReader(body)))
+		return rw.Code
+	}
+	zones := func(a, b, c int) string { return fmt.Sprintf(`["z%d","z%d","z%d"]`, a, b, c) }
+	for k := 0; k < rounds; k++ {
+		r := master.Fork(uint64(3000 + k))
+		w.S.GetPersistOptions().SetPlacementRuleEnabled(true)
+		w.Reset(n)
+		rec := ruleAPIRec{}
+		good := fmt.Sprintf(`{"group_id":"pd","id":"r1","role":"voter","count":3,"location_labels":["zone","host"],"label_constraints":[{"key":"zone","op":"in","values":%s}]}`, zones(1, 2, 3))
+		if c := post("POST", "/config/rule", good); c != 200 {
+			R.Notes = append(R.Notes, fmt.Sprintf("rule API histories skipped: the first rule was refused with %d", c))
+			return
+		}
+		rec.Accepted = append(rec.Accepted, good)
+		if c := post("DELETE", "/config/rule/pd/default", ""); c != 200 {
+			R.Notes = append(R.Notes, fmt.Sprintf("rule API histories skipped: deleting pd/default answered %d", c))
+			return
+		}
+		ack := &placement.Rule{}
+		_ = json.Unmarshal([]byte(good), ack)
+		// the refused update: same rule, other zones, other labels - and something that makes it invalid
+		bad := []string{`"role":"voterr","count":3`, `"role":"voter","count":0`, `"role":"voter","count":3,"start_key":"zz"`}[r.Intn(3)]
+		rec.Refused = fmt.Sprintf(`{"group_id":"pd","id":"r1",%s,"location_labels":["rack","disk"],"label_constraints":[{"key":"zone","op":"in","values":%s}]}`, bad, zones(4, 5, 5))
+		rec.Status = post("POST", "/config/rule", rec.Refused)
+		R.Count(fmt.Sprintf("rule-api:update-answered-%d", rec.Status))
+		if rec.Status == 200 {
+			_ = json.Unmarshal([]byte(rec.Refused), ack)
+		}
+		R.Count("rule-api:history")
+		replay := map[string]interface{}{"rule-api": rec}
+		hist := fmt.Sprintf("POST /config/rule %s answered 200, then POST /config/rule %s answered %d", good, rec.Refused, rec.Status)
+		rc := w.S.GetRaftCluster()
+		served := rc.GetRuleManager().GetRule("pd", "r1")
+		fresh := placement.NewRuleManager(core.NewStorage(w.KV.Base), rc)
+		if err := fresh.Initialize(3, nil); err != nil {
+			panic(err)
+		}
+		stored := fresh.GetRule("pd", "r1")
+		if consString(served) != consString(ack) {
+			R.Violate("C10:refused-rule-update-changes-served-rule",
+				fmt.Sprintf("%s; acknowledged rule: %s; the rule manager serves: %s; storage holds: %s", hist, consString(ack), consString(served), consString(stored)), replay)
+		}
+		if consString(stored) != consString(ack) {
+			R.Violate("C10:refused-rule-update-changes-stored-rule",
+				fmt.Sprintf("%s; acknowledged rule: %s; storage holds: %s", hist, consString(ack), consString(stored)), replay)
+		}
+		// region with two voters in z1, z2: the third has to go to a zone the acknowledged rule names
+		meta := &metapb.Region{Id: 7000, StartKey: []byte("a"), EndKey: []byte("b"), RegionEpoch: &metapb.RegionEpoch{ConfVer: 5, Version: 5},
+			Peers: []*metapb.Peer{{Id: 7001, StoreId: 1}, {Id: 7002, StoreId: 2}}}
+		region := core.NewRegionInfo(meta, meta.Peers[0], core.SetApproximateSize(10), core.SetApproximateKeys(100))
+		w.S.GetBasicCluster().PutRegion(region)
+		for i := uint64(1); i <= n; i++ {
+			_ = w.Heartbeat(i, 10)
+		}
+		op := checker.NewRuleChecker(rc, rc.GetRuleManager(), cache.NewDefaultCache(16)).Check(region)
+		if op == nil {
+			R.Count("rule-api:no-operator")
+			continue
+		}
+		R.Count("rule-api:" + op.Desc())
+		tr := sim10.Run(region, op)
+		for _, p := range tr.Final().Peers {
+			if p.Store == 1 || p.Store == 2 {
+				continue
+			}
+			ok := false
+			for _, c := range ack.LabelConstraints {
+				for _, v := range c.Values {
+					ok = ok || v == fmt.Sprintf("z%d", p.Store)
+				}
+			}
+			if !ok {
+				R.Violate("C10:lifecycle:target-violates-acknowledged-rules",
+					fmt.Sprintf("%s; RuleChecker.Check: %s adds a peer on store %d (zone z%d), the acknowledged rule is %s", hist, sim10.Summary(op), p.Store, p.Store, consString(ack)), replay)
+			}
+		}
+	}
+	w.S.GetPersistOptions().SetPlacementRuleEnabled(false)
 }
